@@ -209,6 +209,12 @@ func (w *worker) exec(in In) (Line, error) {
 		e, _ := json.Marshal(want)
 		return ln, fmt.Errorf("message %d: concretise/abstract round trip differs\n sent %s\n want %s", in.ID, a, e)
 	}
+	return w.execWire(ln, msg)
+}
+
+// execWire runs one concrete message on its own branch of the base state and records everything TLC judges.
+func (w *worker) execWire(ln Line, msg wireMsg) (Line, error) {
+	var err error
 	ctx, _ := w.c.Base.CacheContext()
 	if ln.Before, err = w.b.project(w.c, ctx); err != nil {
 		return ln, err
@@ -224,7 +230,7 @@ func (w *worker) exec(in In) (Line, error) {
 	return ln, nil
 }
 
-// Main: vh limits table | vh limits run -in msgs.ndjson -out trace.ndjson [-seed N] [-workers N]
+// Main: vh limits table | run -in msgs.ndjson -out trace.ndjson [-seed N] [-workers N] | fuzz -n N -out F [-seed N] [-first ID]
 func Main(args []string) int {
 	if len(args) < 1 {
 		fmt.Fprintln(os.Stderr, "usage: vh limits table | run -in F -out F [-seed N]")
@@ -259,6 +265,22 @@ func Main(args []string) int {
 		}
 		return 0
 	}
+	if args[0] == "fuzz" {
+		fs := flag.NewFlagSet("fuzz", flag.ContinueOnError)
+		n := fs.Int("n", 1000, "number of random concrete messages")
+		out := fs.String("out", "", "recorded trace (ndjson)")
+		seed := fs.Int64("seed", 1, "seed")
+		first := fs.Int("first", 1, "id of the first line")
+		nw := fs.Int("workers", 0, "parallel application instances")
+		if err := fs.Parse(args[1:]); err != nil || *out == "" {
+			return 2
+		}
+		if err := fuzz(*n, *out, *seed, *first, *nw); err != nil {
+			fmt.Fprintln(os.Stderr, "limits:", err)
+			return 2
+		}
+		return 0
+	}
 	fmt.Fprintln(os.Stderr, "limits: unknown sub-command", args[0])
 	return 2
 }
@@ -277,16 +299,25 @@ func run(inPath, outPath string, seed int64, nw int) error {
 	}); err != nil {
 		return err
 	}
+	lines, err := parallel(len(ins), seed, nw, func(w *worker, i int) (Line, error) { return w.exec(ins[i]) })
+	if err != nil {
+		return err
+	}
+	return writeLines(outPath, lines)
+}
+
+// parallel runs job(i) for i in 0..n-1 on nw application instances (each with the same base state).
+func parallel(n int, seed int64, nw int, job func(w *worker, i int) (Line, error)) ([]Line, error) {
 	if nw <= 0 {
 		nw = runtime.NumCPU()
 		if nw > 12 {
 			nw = 12
 		}
 	}
-	if nw > len(ins)/50+1 {
-		nw = len(ins)/50 + 1
+	if nw > n/50+1 {
+		nw = n/50 + 1
 	}
-	lines := make([]Line, len(ins))
+	lines := make([]Line, n)
 	errs := make([]error, nw)
 	var wg sync.WaitGroup
 	for k := 0; k < nw; k++ {
@@ -298,8 +329,8 @@ func run(inPath, outPath string, seed int64, nw int) error {
 				errs[k] = err
 				return
 			}
-			for i := k; i < len(ins); i += nw {
-				ln, err := w.exec(ins[i])
+			for i := k; i < n; i += nw {
+				ln, err := job(w, i)
 				if err != nil {
 					errs[k] = err
 					return
@@ -311,9 +342,13 @@ func run(inPath, outPath string, seed int64, nw int) error {
 	wg.Wait()
 	for _, e := range errs {
 		if e != nil {
-			return e
+			return nil, e
 		}
 	}
+	return lines, nil
+}
+
+func writeLines(outPath string, lines []Line) error {
 	w, err := vcommon.NewWriter(outPath)
 	if err != nil {
 		return err
